@@ -1660,7 +1660,7 @@ fn c10(_tier: &str, seed: u64) -> Report {
 fn c14(_tier: &str, seed: u64) -> Report {
     use crate::laws::iupac_set;
     use bio_seq::translation::{PartialTranslationTable, TranslationError, TranslationTable, STANDARD};
-    let mut rep = Report::new("C14", "EXHAUSTIVE on the real code (finite domain): all 16^3 IUPAC codons (no panic; 15^3 gap-free ones for soundness/completeness against all their concrete DNA codons), each also as a slice at symbol offsets 1 and 15; lengths 0,1,2,4,5; all 21 amino symbols for reverse translation against all 15^3 gap-free patterns");
+    let mut rep = Report::new("C14", "EXHAUSTIVE on the real code (finite domain): all 16^3 IUPAC codons (no panic; 15^3 gap-free ones for soundness/completeness against all their concrete DNA codons), each also as a slice at symbol offsets 1 and 15; every length 0..18 but 3 and 30, 33, 48, 63, 64, 66, 129 (random content and repeated GCN triplets, owned and as slices of a longer parent) must be reported as an invalid codon; all 21 amino symbols for reverse translation against all 15^3 gap-free patterns");
     rep.functions = vec!["STANDARD.try_to_amino / try_to_codon on the real statics (cross-check of rules R15/R16: the OnceLock tables hold the rows written in the source, iupac! literals parse as written)"];
     let mut rng = Rng::new(seed);
     let masks = |r: usize| iupac_set(<Iupac as Oracle>::entry(r).ch);
@@ -1693,11 +1693,22 @@ fn c14(_tier: &str, seed: u64) -> Report {
             }
         }
     }
-    for n in [0usize, 1, 2, 4, 5] {
-        let rows = rand_rows::<Iupac>(&mut rng, n);
-        let s = build::<Iupac>(&rows);
-        rep.case(|| format!("length {}", n));
-        rep.expect(matches!(STANDARD.try_to_amino(&s), Err(TranslationError::InvalidCodon(c)) if c == s), "C14 codons of any other length are reported invalid", || format!("{}", s));
+    // every length but 3, including whole numbers of triplets (6, 9, 12, ...), word-sized and longer; random content,
+    // repeated fourfold-degenerate codons (GCN GCN: each triplet alone translates) and slices of a longer parent
+    let gcn: Vec<usize> = "GCN".bytes().map(|b| <Iupac as Oracle>::expect_ascii(b).unwrap()).collect();
+    for n in (0usize..=18).filter(|&n| n != 3).chain([30, 33, 48, 63, 64, 66, 129]) {
+        let mut variants = vec![rand_rows::<Iupac>(&mut rng, n)];
+        variants.push((0..n).map(|i| gcn[i % 3]).collect());
+        for rows in variants {
+            let s = build::<Iupac>(&rows);
+            rep.case(|| format!("length {}", n));
+            let got = STANDARD.try_to_amino(&s);
+            rep.expect(matches!(&got, Err(TranslationError::InvalidCodon(c)) if *c == s), "C14 codons of any other length are reported invalid", || format!("length {} {} -> {:?}", n, s, got.as_ref().map(|a| a.to_char())));
+            with_offset::<Iupac, _>(&rows, 1 + rng.below(20), &mut Rng::new(rng.next()), |sl| {
+                let got = STANDARD.try_to_amino(sl);
+                rep.expect(matches!(&got, Err(TranslationError::InvalidCodon(c)) if c.to_string() == sl.to_string()), "C14 codons of any other length are reported invalid", || format!("length {} slice {} -> {:?}", n, sl, got.as_ref().map(|a| a.to_char())));
+            });
+        }
     }
     // reverse translation: exact pattern or ambiguity
     let codons_of = |letter: char| -> std::collections::BTreeSet<(usize, usize, usize)> {
@@ -1791,10 +1802,39 @@ fn c15_codec<C: Oracle>(rep: &mut Report, rng: &mut Rng, rounds: usize) {
                 }
             }
         }
+        // the entry list given as an ARRAY that names one codon more than once (`Into<HashMap>` keeps the last entry):
+        // the table must behave exactly like the table of the collapsed map
+        if !model.is_empty() {
+            let (k0, a0) = model[0].clone();
+            let (k1, a1) = if model.len() > 1 { model[1].clone() } else { (k0.clone(), (a0 + 1) % 5) };
+            for later in [a0, (a0 + 1) % 5, a1] {
+                let am = |a: usize| <Amino as Oracle>::entry(a).sym;
+                let arr = [(build::<C>(&k0), am(a0)), (build::<C>(&k1), am(a1)), (build::<C>(&k0), am(later))];
+                let collapsed: HashMap<Seq<C>, Amino> = HashMap::from(arr.clone());
+                let want: CodonTable<C, Amino> = CodonTable::from_map(collapsed.clone());
+                let got: CodonTable<C, Amino> = CodonTable::from_map(arr);
+                rep.case(|| format!("{} round={} repeated key in an array of entries", C::NAME, round));
+                for k in [&k0, &k1] {
+                    let s = build::<C>(k);
+                    rep.expect(got.try_to_amino(&s) == Ok(collapsed[&s]) && want.try_to_amino(&s) == Ok(collapsed[&s]), "C15 a key codon translates to exactly the mapped amino acid (entry list with a repeated codon: the map keeps the last entry)", || format!("{} {} later amino {}", C::NAME, s, am(later).to_char()));
+                }
+                for a in 0..<Amino as Oracle>::len() {
+                    let sym = am(a);
+                    let n = collapsed.values().filter(|v| **v == sym).count();
+                    let g = got.try_to_codon(sym);
+                    let ok = match n {
+                        0 => g == Err(TranslationError::InvalidAmino(sym)),
+                        1 => matches!(&g, Ok(c) if collapsed.get(c) == Some(&sym)),
+                        _ => g == Err(TranslationError::AmbiguousCodon(sym)),
+                    };
+                    rep.expect(ok && g == want.try_to_codon(sym), "C15 reverse lookup counts the codons of the MAP (an entry overridden by a later one with the same codon is not a preimage)", || format!("{} entries [{}->{}, {}->{}, {}->{}] amino={} preimages in the map={} got {:?}", C::NAME, build::<C>(&k0), am(a0).to_char(), build::<C>(&k1), am(a1).to_char(), build::<C>(&k0), am(later).to_char(), sym.to_char(), n, g.as_ref().map(|s| s.to_string())));
+                }
+            }
+        }
     }
 }
 fn c15(tier: &str, seed: u64) -> Report {
-    let mut rep = Report::new("C15", "random maps with 0..8 codon keys of length 1..4 onto 5 amino symbols (0,1,2,3+ preimages), quick 40 / thorough 400 maps per codec (Dna, Iupac), each constructed 3 times (fresh RandomState = different iteration order), keys presented as slices at offsets 0..6, 6 random probes, all 21 reverse lookups");
+    let mut rep = Report::new("C15", "random maps with 0..8 codon keys of length 1..4 onto 5 amino symbols (0,1,2,3+ preimages), quick 40 / thorough 400 maps per codec (Dna, Iupac), each constructed 3 times (fresh RandomState = different iteration order), keys presented as slices at offsets 0..6, 6 random probes, all 21 reverse lookups; per map three 3-entry ARRAYS naming one codon twice (same / different amino acid) against the table of the collapsed map");
     rep.functions = vec!["std HashMap / RandomState / Borrow lookup on the real crate (cross-check of the HashMap shim contracts)", "From<&SeqSlice<A>> for Seq<A> on the error path"];
     let mut rng = Rng::new(seed);
     let rounds = if tier == "thorough" { 400 } else { 40 };
